@@ -243,7 +243,7 @@ def rule_r7(facts, rep, rid="C13-R7"):
     rep.saw_fn(g)
     cg_ = ctx(g)
     key = g.def_ + "|end-from-source-span"
-    lit = [x for x in fb.walk(g.body) if x.get("k") == "struct" and fb.norm(x.get("def", "")).endswith("model::InlineRange")]
+    lit = [x for x in fb.walk(g.body) if x.get("k") == "struct" and _is_inline_range_lit(x)]
     if not lit:
         rep.anchor_missing(rid, "InlineRange literal in DocumentInline::key_range")
         return
@@ -262,6 +262,12 @@ def rule_r7(facts, rep, rid="C13-R7"):
     else:
         rep.violation(rid, key, "the end of the destination range is computed from %s instead of the link's source span: `url` is the parsed, unescaped destination, so for `my\\_note`, "
                       "`q&amp;a` or `<..>` the range handed to prepare-rename is shorter than the text in the editor" % ("a text length" if from_text else "something other than inline_range.end"), loc(g, lit[0]))
+
+
+def _is_inline_range_lit(x):
+    """`InlineRange { start, end }` - InlineRange is an alias of Range<Position>, so `start..end` is the same literal"""
+    d = fb.norm(x.get("def", ""))
+    return d.endswith("model::InlineRange") or (d.endswith(("ops::Range", "ops::range::Range")) and "Position" in (x.get("ty") or ""))
 
 
 def run(facts, rep, tier):
